@@ -126,6 +126,10 @@ def check_chain(seq_json, cs, ctx=None):
                 fails.append(("sub-of-chained/answers-differ-from-parent", f"{where}.get_subconverter([{p!r}]): expand({p + ':1'!r})"))
         if ctx is not None:
             ctx.count("subconverters_of_chained")
+    for c_in, m_in, seq_in in zip(convs, models, seqs):
+        # (also C10's subject) an input that is reused must still be what it was: later chains would inherit the damage
+        if record_set(c_in) != m_in.record_set():
+            fails.append(("chain/input-records-changed", f"{where}: input {recs_to_json(seq_in)} now has records {sorted(map(repr, record_set(c_in)))}"))
     if any(res is c for c in convs):
         fails.append(("chain/returns-one-of-its-inputs", f"{where}: the result is an input object itself"))
     if len(seqs) == 1 and cs:
